@@ -66,6 +66,11 @@ DESIGNED = [
     Add(NPow(x, 3), Mul(C(1e17), NPow(x, 3)), Log(y), NPow(x, 3), Mul(C(-1e17), NPow(x, 3)), Log(y)),
     Mul(Exp(x), Recip(y), Exp(x), z, Recip(y), w),
     Add(Div(x, y), Div(x, y), Div(z, w), Root(x, 3), Div(z, w), Root(x, 3)),
+    # one variable reached through three or more leaves whose reverse-mode contributions cancel catastrophically:
+    # the order in which the contributions of a name are added is observable bit for bit
+    Add(Mul(C(1e16), x), x, Mul(C(-1e16), x), Mul(C(0.1), y), Mul(C(0.2), y), Mul(C(0.3), y), Mul(C(-0.6), y)),
+    Add(Mul(C(1e16), x, y), Mul(y, x), Mul(C(-1e16), y, x), Mul(C(1e16), x, z), Mul(x, z), Mul(C(-1e16), z, x)),
+    Minus(Add(Mul(C(3e15), NPow(x, 2)), Mul(C(0.1), x), Mul(C(0.7), x)), Add(Mul(C(3e15), NPow(x, 2)), Mul(C(0.3), x), y)),
     # products whose derivative (wrt the first factor) is a sum / product that the consolidation rules regroup by key
     Mul(x, Add(Log(y), Log(z), Log(y, 2), Log(z, 2), Log(w, 10), Log(y, 10), Log(w))),
     Mul(x, Mul(NPow(y, 2), NPow(z, 3), NPow(w, 2), NPow(y, 3), NPow(z, 5), NPow(w, 5))),
@@ -99,7 +104,7 @@ def battery(tier):
     return DESIGNED + terms
 
 
-def item_digests(terms, coord_perm=None, creation_order=None, after_failed_request=False, var_as_object=False):
+def item_digests(terms, coord_perm=None, creation_order=None, after_failed_request=False, var_as_object=False, share=False):
     """One digest per battery item: every observable of every route at two points."""
     import smoothmath as sm
     import smoothmath.expression as smx
@@ -132,22 +137,22 @@ def item_digests(terms, coord_perm=None, creation_order=None, after_failed_reque
                     obs.append((label, "expr", M.show(o[1])))
                 else:
                     obs.append((label,) + tuple(str(u) for u in o[:2]))
-            rec("at", lambda: A.build(t).at(mk()))
+            rec("at", lambda: A.build(t, share).at(mk()))
             for vname in vs + ["q"]:
                 v = smx.Variable(vname) if var_as_object else vname
-                rec(f"LD.{vname}", lambda: LocatedDifferential(A.build(t), mk()).component(v))
-                rec(f"Df.late.at.{vname}", lambda: Differential(A.build(t)).at(mk()).component(v))
-                rec(f"Df.early.at.{vname}", lambda: Differential(A.build(t), compute_early=True).at(mk()).component(v))
-                rec(f"P.late.{vname}", lambda: Partial(A.build(t), v).at(mk()))
-                rec(f"P.early.{vname}", lambda: Partial(A.build(t), v, compute_early=True).at(mk()))
-                rec(f"Df.early.component_at.{vname}", lambda: Differential(A.build(t), compute_early=True).component_at(v, mk()))
-                rec(f"Df.late.component_at.{vname}", lambda: Differential(A.build(t)).component_at(v, mk()))
+                rec(f"LD.{vname}", lambda: LocatedDifferential(A.build(t, share), mk()).component(v))
+                rec(f"Df.late.at.{vname}", lambda: Differential(A.build(t, share)).at(mk()).component(v))
+                rec(f"Df.early.at.{vname}", lambda: Differential(A.build(t, share), compute_early=True).at(mk()).component(v))
+                rec(f"P.late.{vname}", lambda: Partial(A.build(t, share), v).at(mk()))
+                rec(f"P.early.{vname}", lambda: Partial(A.build(t, share), v, compute_early=True).at(mk()))
+                rec(f"Df.early.component_at.{vname}", lambda: Differential(A.build(t, share), compute_early=True).component_at(v, mk()))
+                rec(f"Df.late.component_at.{vname}", lambda: Differential(A.build(t, share)).component_at(v, mk()))
         for vname in vs + ["q"]:
             v = smx.Variable(vname) if var_as_object else vname
-            rec(f"P.asexpr.{vname}", lambda: Partial(A.build(t), v).as_expression())
-            rec(f"Df.early.comp.asexpr.{vname}", lambda: Differential(A.build(t), compute_early=True).component(v).as_expression())
+            rec(f"P.asexpr.{vname}", lambda: Partial(A.build(t, share), v).as_expression())
+            rec(f"Df.early.comp.asexpr.{vname}", lambda: Differential(A.build(t, share), compute_early=True).component(v).as_expression())
         # whole-object observables whose text could leak an iteration order
-        o = A.construct(lambda: Differential(A.build(t), compute_early=True))
+        o = A.construct(lambda: Differential(A.build(t, share), compute_early=True))
         if o[0] == "ok":
             obs.append(("repr.Differential", repr(o[1])))
             try:
@@ -173,6 +178,8 @@ def _config_job(job):
         return item_digests(_JOB_TERMS, after_failed_request=True)
     if kind == "variable-as-object":
         return item_digests(_JOB_TERMS, var_as_object=True)
+    if kind == "objects":
+        return item_digests(_JOB_TERMS, share=order)
     if kind == "fast-clock":
         with FastClock():
             return item_digests(_JOB_TERMS)
@@ -400,6 +407,7 @@ def run_c18(tier, seed):
     jobs += [("coord", k, None) for k in range(1, 24, 5 if tier != "thorough" else 1)]
     jobs += [("create", 0, co) for co in (("w", "z", "y", "x"), ("y", "w", "x", "z"), ("z", "x", "w", "y"))]
     jobs += [("after-failed-request", 0, None), ("variable-as-object", 0, None), ("fast-clock", 0, None)]
+    jobs += [("objects", 0, True), ("objects", 0, "one-per-name"), ("objects", 0, "two-per-name"), ("objects", 0, "ops")]
     global _JOB_TERMS
     _JOB_TERMS = terms
     from .core import run_jobs
@@ -419,6 +427,12 @@ def run_c18(tier, seed):
             compare(f"coordinate order #{k}", d)
         elif kind == "fast-clock":
             compare("every clock reading 10 s later than the previous one (time / monotonic / perf_counter / process_time)", d)
+        elif kind == "objects":
+            compare({True: "equal sub-expressions are one shared object (the reference builds a fresh object per occurrence)",
+                     "one-per-name": "one Variable object per name shared by all occurrences (the reference uses a fresh object per occurrence)",
+                     "two-per-name": "two Variable objects per name used alternately (the reference uses a fresh object per occurrence)",
+                     "ops": "the same expression written with operators where possible"}[order] +
+                    ": how the equal expression was built (argument spelling)", d)
         elif kind == "variable-as-object":
             compare("variables passed as Variable objects instead of names (argument spelling)", d)
         elif kind == "after-failed-request":
@@ -451,11 +465,13 @@ def run_c18(tier, seed):
         "states": c.get("states", 0), "transitions": c.get("transitions", 0),
         "traces_validated_against_impl": c.get("transitions", 0), "evaluations": c.get("transitions", 0),
         "distinct_nontrivial": c.get("nontrivial", 0),
-        "rule": ("battery = 30 designed 4-variable terms (group_by_key users, reverse-mode accumulations) + multi-variable "
+        "rule": (f"battery = {len(DESIGNED)} designed 4-variable terms (group_by_key users, reverse-mode accumulations with cancelling contributions) + multi-variable "
                  "terms of T(<=3, full); per item a digest over evaluation, all gradient components (late/early, reverse/"
                  "forward), symbolic derivatives (forward and reverse) and object reprs at two points. Configurations: all 24 "
                  "controlled iteration orders of the variable-name sets x coordinate orders x variable creation orders "
-                 "(in-process), plain coordinate/creation permutations, and PYTHONHASHSEED window "
+                 "(in-process), plain coordinate/creation permutations, four ways of building the equal expression (fresh object per "
+                 "occurrence, shared sub-expression objects, one or two Variable objects per name, operators), variables as objects "
+                 "or names, after failed requests, a fast clock, and PYTHONHASHSEED window "
                  f"[{seed * 64}, {seed * 64 + width}) + unseeded, each in a fresh interpreter. All digests must be equal item by "
                  "item. non-trivial = configurations other than the reference"),
         "battery_items": len(terms), "configurations": configs, "hash_seeds": len(seeds),
